@@ -379,7 +379,7 @@ BAD_BY_KEY = {
     ("axis", "type"): ["Space", "angle", "", "SPACE"],
     ("geff", "geff_version"): ["", "v1.3", "1", "1.", "x.1", " 1.2", "1..2"],
     ("pm", "identifier"): [""],
-    ("pm", "dtype"): [""],
+    ("pm", "dtype"): ["", ",", "i4,,", "01i4", "Int8", "float16", "l", "=i4", "U0"],   # schema: any non-empty string; the parser decides
 }
 
 
@@ -502,8 +502,8 @@ def object_cases(doc, rng, n_mut, block, cli=False, finite=True):
 
 
 def parse_ok(label):
-    # mutations whose parse outcome is inside the modelled coercions (C07): all but unmodelled dtype spellings
-    return not label.startswith("type:pm.dtype") and not label.startswith("type:root") and not label.startswith("drop:root") \
+    # mutations whose parse outcome is inside the modelled coercions (C07); dtype values are (numpy's dtype-string grammar is modelled)
+    return not label.startswith("type:root") and not label.startswith("drop:root") \
         and not label.startswith("unknown:root") and not label.startswith("absent:root")
 
 
